@@ -66,6 +66,18 @@ def requeue_jobs(tier):
                             "immediate or deferred (requeue array)" % nsrv))
     return J
 
+def requeue_oom_jobs(tier):
+    """C14: ONE deferred/immediate ares_requeue_query whose k-th allocation fails."""
+    J = []
+    for k in (1, 2):
+        J.append(dict(name="requeue_step_oom%d" % k, harness="../machine/requeue_step.c", defines=["-DNSRV=2", "-DM_OOM=%d" % k],
+                      real=LIB, support=SUP, unwind=8, timeout=1800, mem_gb=16, kf_group="answer_step_oom",
+                      replace=["ares_send_query"], replace_with=["sq_stub.c"], unwindset=UW + ["ares_send_query:4", "ares_requeue_query:2"],
+                      witnesses=["end", "deferral failed", "budget exhausted"],
+                      bound="ONE DEFERRED ares_requeue_query as in requeue_step_srv2 whose allocation number %d fails (the requeue array "
+                            "creation / its first growth)" % k))
+    return J
+
 def timeouts_jobs(tier):
     J = []
     for nq in (1, 2):
@@ -96,6 +108,20 @@ def answer_jobs(tier, kf_group="answer_step", owner=True):
                             "request/response, option count, cookie verdict, parse failure, zero length, channel flags "
                             "0x20/IGNTC/NOCHECKRESP" % ("TCP" if rx_tcp else "UDP", "ANOTHER connection (stale reply)" if on_other
                                                        else "that connection")))
+    return J
+
+def answer_oom_jobs(tier):
+    """C14 on the answer path: ONE process_answer whose k-th allocation fails (k concrete per job)."""
+    J = []
+    for rx_tcp in (0, 1):
+        for k in (1, 2, 3, 4):
+            J.append(dict(name="answer_step_oom%d_rx%s" % (k, "tcp" if rx_tcp else "udp"), harness="../machine/answer_step.c",
+                          defines=["-DRX_TCP=%d" % rx_tcp, "-DON_OTHER=0", "-DKF_stale_conn_reply", "-DM_OOM=%d" % k],
+                          real=LIB, support=SUP, unwind=8, backend="cadical", timeout=1800, mem_gb=16, kf_group="answer_step_oom",
+                          replace=["ares_requeue_query"], replace_with=["rq_stub.c"], unwindset=UW + ["ares_send_query:2", "ares_requeue_query:4"],
+                          witnesses=["end", "dropped"] + (["request failed with ENOMEM"] if k <= 2 else []),
+                          bound="ONE process_answer on a %s connection (request assigned to it) whose allocation number %d fails; "
+                                "same symbolic response as answer_step_*" % ("TCP" if rx_tcp else "UDP", k)))
     return J
 
 def health_jobs(tier):
